@@ -187,6 +187,28 @@ fn parallel_streams(crf: &Arc<Crf>, size: u64, threads: usize, rounds: usize) ->
     if e.is_empty() { Ok(()) } else { Err(format!("{} of {} threads: {}", e.len(), threads, e[0])) }
 }
 
+/// The read size the file entity currently uses — an internal tuning knob (`CHUNK_SIZE`) that
+/// the property says nothing depends on; the model takes it as a parameter (`cs=`), the theorems
+/// hold for every read size. Measured once: the first chunk of a range over a sparse file of
+/// 256 MiB (a read size of 256 MiB or more is reported as "everything available").
+fn observed_read_size(rt: &tokio::runtime::Runtime) -> u64 {
+    static CS: std::sync::OnceLock<u64> = std::sync::OnceLock::new();
+    *CS.get_or_init(|| {
+        const PROBE: u64 = 256 << 20;
+        let tmp = tempfile::tempdir().unwrap();
+        let path = tmp.path().join("probe");
+        std::fs::File::create(&path).unwrap().set_len(PROBE).unwrap();
+        let crf = Arc::new(Crf::new(std::fs::File::open(&path).unwrap(), HeaderMap::new()).unwrap());
+        let (outs, _) = poll_file(rt, &path, &crf, 0, PROBE, &[], 1);
+        match outs.first() {
+            Some(FOut::Chunk(_, d)) if !d.is_empty() && (d.len() as u64) < PROBE => d.len() as u64,
+            Some(FOut::Chunk(_, d)) if !d.is_empty() => u64::MAX / 4,
+            // (no usable measurement: the pinned crate's value; the cases will tell)
+            _ => 65536,
+        }
+    })
+}
+
 fn show_fouts(o: &[FOut]) -> String {
     o.iter()
         .map(|x| match x {
@@ -271,10 +293,11 @@ pub fn c18(em: &mut Emit, thorough: bool, _seed: u64) {
                 }
                 em.case(
                     &format!(
-                        "FILE start={} end={} sizes={}",
+                        "FILE start={} end={} sizes={} cs={}",
                         a,
                         b,
-                        fsizes.iter().map(|s| s.to_string()).collect::<Vec<_>>().join(",")
+                        fsizes.iter().map(|s| s.to_string()).collect::<Vec<_>>().join(","),
+                        observed_read_size(&rt)
                     ),
                     &show_fouts(&outs),
                     &pred(ok, || why.clone()),
@@ -332,10 +355,11 @@ pub fn c18(em: &mut Emit, thorough: bool, _seed: u64) {
                         }
                         em.case(
                             &format!(
-                                "FILE start={} end={} sizes={}",
+                                "FILE start={} end={} sizes={} cs={}",
                                 a,
                                 b,
-                                fsizes.iter().map(|s| s.to_string()).collect::<Vec<_>>().join(",")
+                                fsizes.iter().map(|s| s.to_string()).collect::<Vec<_>>().join(","),
+                                observed_read_size(&rt)
                             ),
                             &show_fouts(&outs),
                             &pred(ok, || why.clone()),
@@ -664,7 +688,7 @@ pub fn c18(em: &mut Emit, thorough: bool, _seed: u64) {
                     why = "nothing delivered".into();
                 }
                 em.case(
-                    &format!("FILE start={} end={} sizes={}", a, b, fsizes.iter().map(|s| s.to_string()).collect::<Vec<_>>().join(",")),
+                    &format!("FILE start={} end={} sizes={} cs={}", a, b, fsizes.iter().map(|s| s.to_string()).collect::<Vec<_>>().join(","), observed_read_size(&rt)),
                     &show_fouts(&outs),
                     &pred(ok, || why.clone()),
                     "sparse-4g",
